@@ -1135,14 +1135,27 @@ class AsyncBackgroundBatcher(Generic[A_contra, R_co]):
         try:
             return await aio.shield(fut)
         finally:
-            if self.retention_timeout > 0:
-                self._loop.call_later(
-                    self.retention_timeout,
-                    self._retention_cache.pop,
-                    key,
-                )
+            if fut.done():
+                self._forget(key)
             else:
-                del self._retention_cache[key]
+                # This caller was cancelled while the request is still
+                # queued or running: later calls for the key have to
+                # find it until it is answered
+                fut.add_done_callback(lambda _: self._forget(key))
+
+    def _forget(self, key: str) -> None:
+        """
+        Remove the answered future for the given key from the retention
+        cache, either immediately or after :attr:`retention_timeout`.
+        """
+        if self.retention_timeout > 0:
+            self._loop.call_later(
+                self.retention_timeout,
+                self._retention_cache.pop,
+                key,
+            )
+        else:
+            del self._retention_cache[key]
 
     def _daemon_task(
         self,
